@@ -452,24 +452,20 @@ theorem wouldAcceptN_core {w w' : World} (hc : w'.core = w.core) (f : Nat) (N A 
   · rw [core_eq_part hc]
   · intro z; unfold accM; rw [core_eq_canAcceptBasic hc z p, core_eq_field procM (fun _ => rfl) hc]
 
-/-- **Discharge by notification.**  The pending notification of `x` is discharged; if `x` is a
-batcher it may be counted as willing from now on (whoever could be waiting for it has been woken,
-whatever its state). -/
-theorem G.notifyG {E N A N' A' : List Nat} {w : World} (h : G E N A w) (x : Nat)
-    (hN : ∀ y ∈ N, y = x ∨ y ∈ N')
-    (hA : ∀ y ∈ A', y ∈ A ∨ (y = x ∧ (w.dev x).kind = .batcher)) : G E N' A' (w.notify x) := by
-  have hst := step_notify w x
-  have hes := envStep_notify w x
+/-- **A notification step** (`w'` is reached from `w` by notifications only): the masks may change
+from `N`, `A` to `N'`, `A'` provided every flagged holder that has a downstream neighbour willing
+under the new masks but not under the old ones has been woken. -/
+theorem G.notifyStep {E N A N' A' : List Nat} {w w' : World} (h : G E N A w)
+    (hst : C03.Step w w') (hes : EnvStep w w')
+    (haok : ∀ y ∈ A', (w.dev y).kind = .batcher)
+    (hwk : ∀ d p y, holdsD (w.dev d) = some p → (w.dev d).waitingDS = true → y ∈ (w.dev d).down →
+      wouldAcceptN w.fuel w N' A' y p = true → wouldAcceptN w.fuel w N A y p = false →
+      (w'.dev d).waitingDS = false) : G E N' A' w' := by
   have hc := hst.core
   have hsw := sw_of_core hc
-  have hdc : ∀ y, ((w.notify x).dev y).core = (w.dev y).core := core_eq_dev hc
-  have hnow : (w.notify x).now = w.now := hst.mono.now
-  have hlen : (w.notify x).devs.length = w.devs.length := core_eq_devs_length hc
-  have haok : ∀ y ∈ A', (w.dev y).kind = .batcher := by
-    intro y hy
-    rcases hA y hy with h1 | ⟨rfl, h1⟩
-    · exact h.aok y h1
-    · exact h1
+  have hdc : ∀ y, (w'.dev y).core = (w.dev y).core := core_eq_dev hc
+  have hnow : w'.now = w.now := hst.mono.now
+  have hlen : w'.devs.length = w.devs.length := core_eq_devs_length hc
   refine ⟨h.sc.of_sw hsw, fun hb => ?_, hes.inv h.inv, by rw [hnow]; exact h.now0, ?_, ?_, ?_,
     h.stk.frame (core_eq_parts hc) (core_eq_dev_kind hc),
     h.wr.same hsw (by rw [core_eq_rm hc])
@@ -483,19 +479,18 @@ theorem G.notifyG {E N A N' A' : List Nat} {w : World} (h : G E N A w) (x : Nat)
   · intro d hd p hp
     obtain ⟨i, hi, rfl⟩ := List.getElem_of_mem hd
     rw [core_eq_parts hc]
-    have e : (w.notify x).dev i = (w.notify x).devs[i] := dev_getElem hi
+    have e : w'.dev i = w'.devs[i] := dev_getElem hi
     rw [← e, ← heldL_core, hdc, heldL_core] at hp
     exact h.valid.dev i p hp
   · unfold KidsValid; rw [core_eq_parts hc]; exact h.kv
   · intro d p hd hdE
     have hd0 : holdsD (w.dev d) = some p := by rw [← holdsD_core, ← hdc, holdsD_core]; exact hd
-    have hdlt : d < w.devs.length := holdsD_lt hd0
-    have haid : ((w.notify x).dev d).aid = (w.dev d).aid := core_eq_dev_aid hc d
-    have hdue : dueD w.now (w.dev d) = dueD (w.notify x).now ((w.notify x).dev d) := by
-      rw [hnow, ← dueD_core, ← dueD_core _ ((w.notify x).dev d), hdc]
-    have hatt : Att w d → Att (w.notify x) d :=
+    have haid : (w'.dev d).aid = (w.dev d).aid := core_eq_dev_aid hc d
+    have hdue : dueD w.now (w.dev d) = dueD w'.now (w'.dev d) := by
+      rw [hnow, ← dueD_core, ← dueD_core _ (w'.dev d), hdc]
+    have hatt : Att w d → Att w' d :=
       att_mono (fun e he => hst.mono.mem he) haid (by rw [hdue]; exact Int.le_refl _)
-    have hpend : Pending w d → ((w.notify x).dev d).waitingDS = false → Att (w.notify x) d := by
+    have hpend : Pending w d → (w'.dev d).waitingDS = false → Att w' d := by
       intro hp hf
       rcases hst.pend d hp with h1 | h1
       · rw [hf] at h1; cases h1
@@ -505,40 +500,84 @@ theorem G.notifyG {E N A N' A' : List Nat} {w : World} (h : G E N A w) (x : Nat)
         exact le_dueD _ _
     rcases h.wake d p hd0 hdE with ha | hb
     · exact Or.inl (hatt ha)
-    · cases hfl : ((w.notify x).dev d).waitingDS with
+    · cases hfl : (w'.dev d).waitingDS with
       | false => exact Or.inl (hpend (Or.inl hb.1) hfl)
       | true =>
         refine Or.inr ⟨hfl, fun y hy => ?_⟩
         rw [core_eq_dev_down hc] at hy
-        cases hh : wouldAcceptN (w.notify x).fuel (w.notify x) N' A' y p with
+        cases hh : wouldAcceptN w'.fuel w' N' A' y p with
         | false => rfl
         | true =>
           exfalso
           rw [fuel_of_len hlen, wouldAcceptN_core hc] at hh
-          have hb2 := hb.2 y hy
-          unfold wouldAcceptN at hh hb2
-          obtain ⟨l, k, hch, hcab⟩ := wouldAcceptS_local (N := N) (N' := N') (A := A) (A' := A')
-            (x := x) (fun z hz => (hN z hz).symm) (fun z hz => (hA z hz).imp id (fun h1 => h1.1))
-            _ y _ hh hb2
-          have hnode : NodeOK w x := by
-            rw [Bool.or_eq_true] at hcab
-            rcases hcab with h1 | h1
-            · exact Or.inl (forwardsUp_batcher (haok x (by simpa using h1)))
-            · rw [accM_eq] at h1; exact accB_nodeOK h1
-          obtain ⟨hylt, hdy⟩ := h.sc.down_sym hdlt hy
-          have hkn : k ≤ 2 * w.devs.length + 1 := (hch.bound h.sc _ _ (h.sc.cost hylt)).2
-          have hny : NodeOK w y := by
-            cases hch with
-            | here _ => exact hnode
-            | step he _ => exact nodeOK_ctrl he
-          have hr : C03.Reach w true (1 + 1 + k) x d :=
-            hch.reach h.sc _ hylt hnode
-              (.up (forwards_of_up h.sc hylt hny hdy) hdy (.self (n := 0) (holdsD_hl hd0).1))
-          have hr' : C03.Reach w true w.fuel x d := hr.le (by unfold World.fuel; omega)
-          have hwk := reach_wakes hdlt (holdsD_hl hd0).2
-            (by rw [operational_eq]; exact holdsD_opn hd0) hr' w rfl (Or.inl hb.1)
-          have : ((w.notify x).dev d).waitingDS = false := hwk.1
+          have := hwk d p y hd0 hb.1 hy hh (hb.2 y hy)
           rw [this] at hfl; cases hfl
+
+/-- Notifications (whoever is notified) never destroy the invariant. -/
+theorem G.ofStep {E N A : List Nat} {w w' : World} (h : G E N A w)
+    (hst : C03.Step w w') (hes : EnvStep w w') : G E N A w' :=
+  h.notifyStep hst hes h.aok (fun d p y _ _ _ h1 h2 => by rw [h1] at h2; cases h2)
+
+/-- the chain `y → … → x` followed by one more step through the controller `x` -/
+theorem CChain.snoc {w : World} {l k y x z c : Nat} (h : CChain w l k y x) (he : CEdge w x z c) :
+    CChain w (l + 1) (k + c) y z := by
+  induction h with
+  | here x =>
+    have := CChain.step he (.here z)
+    simpa using this
+  | @step l k c' y z' x he' _ ih =>
+    have := CChain.step he' (ih he)
+    have e : c' + k + c = c' + (k + c) := Nat.add_assoc ..
+    rw [e]
+    exact this
+
+/-- **Discharge by notification**, with explicit recursion budget `n`: it must cover the way back
+along every controller chain that ends in `x`. -/
+theorem G.notifyUpG {E N A N' A' : List Nat} {w : World} (h : G E N A w) (x n : Nat)
+    (hn : ∀ y l k, y < w.devs.length → CChain w l k y x → 2 + k ≤ n)
+    (hN : ∀ y ∈ N, y = x ∨ y ∈ N')
+    (hA : ∀ y ∈ A', y ∈ A ∨ (y = x ∧ (w.dev x).kind = .batcher)) :
+    G E N' A' (notifyUp n w x) := by
+  have haok : ∀ y ∈ A', (w.dev y).kind = .batcher := by
+    intro y hy
+    rcases hA y hy with h1 | ⟨rfl, h1⟩
+    · exact h.aok y h1
+    · exact h1
+  refine h.notifyStep (step_notifyUp n w x) (envStep_notify_aux n w x).1 haok ?_
+  intro d p y hd0 hfl hy hh hb2
+  have hdlt : d < w.devs.length := holdsD_lt hd0
+  unfold wouldAcceptN at hh hb2
+  obtain ⟨l, k, hch, hcab⟩ := wouldAcceptS_local (N := N) (N' := N') (A := A) (A' := A')
+    (x := x) (fun z hz => (hN z hz).symm) (fun z hz => (hA z hz).imp id (fun h1 => h1.1))
+    _ y _ hh hb2
+  have hnode : NodeOK w x := by
+    rw [Bool.or_eq_true] at hcab
+    rcases hcab with h1 | h1
+    · exact Or.inl (forwardsUp_batcher (haok x (by simpa using h1)))
+    · rw [accM_eq] at h1; exact accB_nodeOK h1
+  obtain ⟨hylt, hdy⟩ := h.sc.down_sym hdlt hy
+  have hkn : 2 + k ≤ n := hn y l k hylt hch
+  have hny : NodeOK w y := by
+    cases hch with
+    | here _ => exact hnode
+    | step he _ => exact nodeOK_ctrl he
+  have hr : C03.Reach w true (1 + 1 + k) x d :=
+    hch.reach h.sc _ hylt hnode
+      (.up (forwards_of_up h.sc hylt hny hdy) hdy (.self (n := 0) (holdsD_hl hd0).1))
+  have hr' : C03.Reach w true n x d := hr.le (by omega)
+  have hwk := reach_wakes hdlt (holdsD_hl hd0).2
+    (by rw [operational_eq]; exact holdsD_opn hd0) hr' w rfl (Or.inl hfl)
+  exact hwk.1
+
+/-- **Discharge by notification.**  The pending notification of `x` is discharged; if `x` is a
+batcher it may be counted as willing from now on (whoever could be waiting for it has been woken,
+whatever its state). -/
+theorem G.notifyG {E N A N' A' : List Nat} {w : World} (h : G E N A w) (x : Nat)
+    (hN : ∀ y ∈ N, y = x ∨ y ∈ N')
+    (hA : ∀ y ∈ A', y ∈ A ∨ (y = x ∧ (w.dev x).kind = .batcher)) : G E N' A' (w.notify x) :=
+  h.notifyUpG x w.fuel (fun y l k hylt hch => by
+    have := (hch.bound h.sc _ _ (h.sc.cost hylt)).2
+    unfold World.fuel; omega) hN hA
 
 /-- **Discharge by notification** (the masks `A` unchanged). -/
 theorem G.notify {E N A N' : List Nat} {w : World} (h : G E N A w) (x : Nat)
